@@ -106,7 +106,7 @@ def run(ctx, chk):
                     and not isinstance(v[1], bool)
                 chk.ob("C05.scan-zero", f"{K}: success result has literal value 0", z,
                        cn.show(v), loc, nontrivial=False)
-    chk.floor("C05.sites", nsites, 16, "ActionResult sites")
+    chk.floor("C05.sites", nsites, 8, "ActionResult sites")
     # NoOp cost literal 0
     fi = ctx.repo.func("nasim.envs.action", "NoOp.__init__")
     ip = ctx.interp()
